@@ -1,6 +1,7 @@
 """C15 - shared text-format helpers recover what was rendered."""
 import collections
 import itertools
+import re
 import string
 
 ID = "C15"
@@ -188,7 +189,9 @@ def ini_val(rng):
     r = rng.random()
     if r < 0.15:
         return rng.choice(["true", "False", "yes", "NO", "on", "off", "1", "0", "42", "-7", "1.5", "1e3"])
-    v = "".join(rng.choice(VALCH) for _ in range(rng.randint(0, 12))).strip().rstrip("\\").strip()
+    v = "".join(rng.choice(VALCH) for _ in range(rng.randint(0, 12)))
+    while v != v.strip().rstrip("\\"):
+        v = v.strip().rstrip("\\")
     if v == "[" or v.startswith("["):
         v = "x" + v
     return v
@@ -283,7 +286,7 @@ def run_fixed(spec, ctx):
         kw["heading_ignore"] = [shown[0] if not subst or subst[0] != 0 else subst[1].split()[0]]
         if any(j.strip().startswith(kw["heading_ignore"][0]) for j in spec["junk"]):
             return None
-    if subst and fmt(shown).count(subst[1]) != 1:
+    if subst and len(re.findall("(?=%s)" % re.escape(subst[1]), fmt(shown))) != 1:      # overlapping occurrences count too
         return None          # the text to substitute also occurs across a column boundary of this header line
     lines.append(fmt(shown))
     lines.extend(fmt(r) for r in rows)
